@@ -51,6 +51,10 @@ def run(ctx: Ctx):
     res.rule("SVD-OF-UNFOLDING", "dimensional analysis: every matrix handed to an SVD inside tensor_train / tensor_ring / partial_tucker has degree exactly 1 in the data (an unfolding of the tensor or of its projection / remainder), on every branch: factorising a Gram matrix (degree 2) instead squares the condition number", floor=4)
     res.rule("NO-RECAST", "no value computed from an SVD inside tensor_train / tensor_ring / partial_tucker is re-typed to the context or dtype of the data argument (tl.tensor(v, **tl.context(data)), v.astype(data.dtype), dtype=data.dtype): the property quantifies over integer tensors, whose floating-point cores / factors such a cast truncates", floor=3)
     ctx.guarded(no_recast, ctx)
+    from .c07 import exact_sweep_svd
+
+    res.rule("EXACT-SWEEP-SVD", "HOOI (partial_tucker): the SVD that updates a factor inside the sweep loop does not take its method from a caller option (exactness at sufficient rank and the quasi-optimality bound rest on orthonormal factors from an exact SVD; the option may choose the initialisation only)", floor=1)
+    ctx.guarded(exact_sweep_svd, ctx, "EXACT-SWEEP-SVD")
 
 
 def output_degree(ctx: Ctx):
